@@ -126,6 +126,12 @@ func (cs *CacheStorage) Seal(object CacheObject) (cacheObject CacheObject, isOK 
 	if err != nil {
 		return object, false
 	}
+	// seal what is stored now, not the (possibly stale) copy the caller read earlier
+	if cur, found := cs.GetWithoutLock(k, object); found {
+		if co, ok := cur.(CacheObject); ok {
+			object = co
+		}
+	}
 	// make READONLY
 	cs.SealMap.Store(object.HashString(), struct{}{})
 	// set in db and cache
